@@ -268,6 +268,18 @@ def judge(d, ws, res):
                     add_violation(res, "phasor_exact", case, exp_i[i], I[i], "peak current of %s at w=%s" % (i, w))
                     bad = True
                     break
+        # the same circuit described with NumPy scalars, analysed at the frequency given as a NumPy scalar (or as an int)
+        bump(res["hits"], "number_types")
+        try:
+            import numpy as _np
+            wv = int(w) if (F(w).denominator == 1 and int(w) % 2 == 0) else _np.float64(float(w))
+            alt = ComplexSolution(circuit=adapt.circuit(d, numbers="numpy" if not isinstance(wv, int) else "int"), w=wv, peak_values=True)
+            pa, ia = complex(alt.get_potential(nodes[-1])), complex(alt.get_current(ids[0]))
+            if abs(pa - P[nodes[-1]]) > tol_v or abs(ia - I[ids[0]]) > tol_i:
+                add_violation(res, "phasor_exact", dict(case, numbers=type(wv).__name__), [P[nodes[-1]], I[ids[0]]], [pa, ia],
+                              "the same circuit and frequency given as %s numbers are analysed differently (w=%s)" % ("int" if isinstance(wv, int) else "NumPy", w))
+        except Exception as e:
+            add_violation(res, "phasor_exact", dict(case, numbers="numpy/int"), "a solution", "%s: %s" % (type(e).__name__, e), "analysis raised for NumPy/int-typed numbers at w=%s" % w, kind="exception:" + type(e).__name__)
         bump(res["hits"], "query_order")
         first = ([Ir[i] for i in reversed(ids)], [Vr[i] for i in reversed(ids)], [Pr[nd] for nd in reversed(nodes)])
         if repr(first) != repr(again):
